@@ -18,6 +18,7 @@ import (
 	"fmt"
 	"sort"
 	"strings"
+	"sync"
 	"testing/synctest"
 	"time"
 
@@ -176,6 +177,8 @@ type psStream struct {
 func (s *psStream) Context() context.Context { return s.ctx }
 func (s *psStream) CloseSend() error         { return nil }
 func (s *psStream) Close() error {
+	s.w.hmu.Lock()
+	defer s.w.hmu.Unlock()
 	s.closed = true
 	if s.peerEnd != nil {
 		s.peerEnd.eof = true
@@ -190,6 +193,8 @@ func (s *psStream) MsgRecv(msg drpc.Message, _ drpc.Encoding) error {
 	w := s.w
 	w.sch.Adopt("rd-" + s.nm)
 	w.sch.Park("recv:" + s.nm)
+	w.hmu.Lock()
+	defer w.hmu.Unlock()
 	if s.closed || len(s.inbox) == 0 {
 		return errPsEOF
 	}
@@ -206,6 +211,8 @@ func (s *psStream) MsgSend(msg drpc.Message, _ drpc.Encoding) error {
 	w := s.w
 	w.sch.Adopt("wr-" + s.nm)
 	w.sch.Park("send:" + s.nm)
+	w.hmu.Lock()
+	defer w.hmu.Unlock()
 	if s.closed {
 		return errPsWrite
 	}
@@ -254,6 +261,8 @@ func (c *psConn) Invoke(context.Context, string, drpc.Encoding, drpc.Message, dr
 // NewStream: the dialing engine gets one end; when the target is the real node the other end is served by it.
 func (c *psConn) NewStream(ctx context.Context, rpc string, enc drpc.Encoding) (drpc.Stream, error) {
 	w, p := c.p.w, c.p
+	w.hmu.Lock()
+	defer w.hmu.Unlock()
 	local := w.newStream(p.opener, p.id, nil)
 	if p.opener == "node" {
 		local.otherOut = true
@@ -300,6 +309,10 @@ type psClient struct {
 }
 
 type psWorld struct {
+	// hmu orders harness state accesses for the race detector: the event loop holds it except while it lets
+	// other goroutines run; callbacks from goroutines of the code under test take it (only one goroutine runs
+	// at a time by construction, but the detector does not see synctest's quiescence as synchronisation)
+	hmu sync.Mutex
 	r       *core.Run
 	s       *core.Src
 	sch     *core.Sched
@@ -377,6 +390,8 @@ func (w *psWorld) isNodePeer(peerId string) bool {
 type psMembership struct{ w *psWorld }
 
 func (m psMembership) CheckMember(_ context.Context, spaceId string, identity crypto.PubKey) error {
+	m.w.hmu.Lock()
+	defer m.w.hmu.Unlock()
 	if m.w.isMember(spaceId, identity.Account()) {
 		return nil
 	}
@@ -401,6 +416,8 @@ type psPeers struct {
 }
 
 func (p psPeers) SpacePeers(context.Context, string) ([]peer.Peer, error) {
+	p.w.hmu.Lock()
+	defer p.w.hmu.Unlock()
 	if !p.c.online {
 		return nil, nil
 	}
@@ -1210,6 +1227,8 @@ func runC17(r *core.Run) {
 		if n < 2 {
 			return nil
 		}
+		w.hmu.Lock()
+		defer w.hmu.Unlock()
 		p := make([]int, n)
 		for i := range p {
 			p[i] = i
@@ -1264,7 +1283,9 @@ func runC17(r *core.Run) {
 	}
 	synctest.Wait()
 	sch.Off = false
+	w.hmu.Lock()
 	defer func() {
+		w.hmu.Unlock()
 		sch.ReleaseAll()
 		for _, c := range w.clients {
 			_ = c.a.Close(context.Background())
@@ -1283,7 +1304,7 @@ func runC17(r *core.Run) {
 	}
 	runnable := func() []string {
 		var out []string
-		for _, n := range sch.Parked() {
+		for _, n := range w.parked() {
 			pt, _ := sch.ParkedPoint(n)
 			if strings.HasPrefix(pt, "recv:") {
 				x := w.stream(pt[5:])
@@ -1301,7 +1322,9 @@ func runC17(r *core.Run) {
 		if r.Aborted() {
 			return
 		}
+		w.hmu.Unlock()
 		sch.Grant(name)
+		w.hmu.Lock()
 		if r.Aborted() {
 			return
 		}
@@ -1397,8 +1420,10 @@ func runC17(r *core.Run) {
 			w.clientOp(&subN)
 		case 7:
 			d := []time.Duration{time.Second, 25 * time.Second, 6 * time.Minute}[s.Choose("clock", 3)]
+			w.hmu.Unlock()
 			time.Sleep(d)
 			synctest.Wait()
+			w.hmu.Lock()
 			w.ev("clock", "+%v", d)
 		case 8:
 			w.injectClientFrame()
@@ -1736,6 +1761,8 @@ func (w *psWorld) clientOp(subN *int) {
 		sch := w.sch
 		sch.Go(name, func() {
 			un, err := c.svc.Subscribe(sp, pat, func(spaceId, topic string, identity crypto.PubKey, payload []byte) {
+				w.hmu.Lock()
+				defer w.hmu.Unlock()
 				c.calls = append(c.calls, psCall{sub.id, spaceId, topic, identity.Account(), string(payload)})
 			})
 			gotErr = err
@@ -1814,10 +1841,21 @@ func (w *psWorld) clientOp(subN *int) {
 	w.checkClientState(c, "after "+name)
 }
 
+// parked: the parked task names after quiescence; the harness lock is released while waiting (a goroutine
+// that needs it would otherwise never become quiescent).
+func (w *psWorld) parked() []string {
+	w.hmu.Unlock()
+	l := w.sch.Parked()
+	w.hmu.Lock()
+	return l
+}
+
 // grantNow runs a freshly created task up to its first scheduling point.
 func (w *psWorld) grantNow(name string) {
+	w.hmu.Unlock()
 	w.sch.Parked() // quiescence: the task is parked at "start"
 	w.sch.Grant(name)
+	w.hmu.Lock()
 }
 
 func (w *psWorld) teardownAll() {
@@ -1825,7 +1863,7 @@ func (w *psWorld) teardownAll() {
 	runAll := func() {
 		for n := 0; n < 100000 && !r.Aborted(); n++ {
 			var run []string
-			for _, nm := range w.sch.Parked() {
+			for _, nm := range w.parked() {
 				pt, _ := w.sch.ParkedPoint(nm)
 				if strings.HasPrefix(pt, "recv:") {
 					x := w.stream(pt[5:])
@@ -1844,7 +1882,9 @@ func (w *psWorld) teardownAll() {
 			if r.Aborted() {
 				return
 			}
+			w.hmu.Unlock()
 			w.sch.Grant(nm)
+			w.hmu.Lock()
 			for _, c := range w.clients {
 				c.calls, c.pending = nil, nil
 			}
